@@ -19,6 +19,7 @@ import Hts.Lemmas.CacheSum
 import Hts.Lemmas.CachedReaderVsC02
 import Hts.Lemmas.CachedReaderC02Sim
 import Hts.Lemmas.CachedReaderFifo
+import Hts.Lemmas.CacheHom
 namespace Hts.Props.C03
 open Hts.Model.Cache Hts.Spec.CacheContract Hts.Model.CachedReader
 
@@ -466,6 +467,335 @@ example : (match newReader fifoOps Cfg.repaired file3 with
     (some 0, some 0, none, [[⟨35, 1⟩, ⟨0, 0⟩]], some true) := by decide
 
 end Fifo
+
+/-! ### StatsRecorder around ANY cache (extension round 5)
+
+`StatsRecorder{Cache: c}` forwards `Get`/`Put`/`Peek` to `c` and updates five counters that no result depends on
+(bgzf/cache/cache.go: `StatsRecorder.Get/Put`; `Peek`, `Len`, `Cap`, `Resize`, `Drop` are the embedded cache's own).  So the
+reader behaves with `StatsRecorder(c)` exactly as with `c` — no contract, no invariant, no hypothesis on `c`, the code
+variant or the file is needed: `Hts.Lemmas.CacheHom` (`Hom`, `run_hom`) shows that every function of the reader model
+commutes with forgetting the counters. -/
+
+section Stats
+
+/-- forget the counters of every `StatsRecorder` in a history -/
+abbrev unwrapOps {σ : Type} (ops : List (Op (σ × Stats))) : List (Op σ) := ops.map (Op.mapC Prod.fst)
+
+/-- generic form: a cache kind that is another kind plus bookkeeping gives the same outputs and the same faults -/
+theorem hom_same_behaviour {σ τ : Type} (o' : CacheOps τ) (o : CacheOps σ) (π : τ → σ) (H : Hom o' o π) (cfg : Cfg)
+    (f : File) (ops : List (Op τ)) :
+    outputs cfg o' f ops = outputs cfg o f (ops.map (Op.mapC π)) := by
+  unfold outputs
+  rw [newReader_hom H (o := o) cfg f]
+  cases newReader o' cfg f with
+  | error e => rfl
+  | ok v =>
+    obtain ⟨r0, e⟩ := v
+    simp only [mapR_ok]
+    by_cases he : e = .none
+    · simp only [he, ne_eq, not_true_eq_false, if_false]
+      rw [run_hom H cfg f ops r0]
+      cases run cfg o' f r0 ops with
+      | error e => rfl
+      | ok w => obtain ⟨r1, outs⟩ := w; rfl
+    · simp only [ne_eq, he, not_false_eq_true, if_true]
+
+/-- **stats_recorder_same_behaviour**: for EVERY cache kind `o` (LRU, FIFO, Random, a sum of kinds, another
+StatsRecorder …), every code variant, every file and every history, the reader with `StatsRecorder(c)` objects returns
+exactly what the reader with the bare `c` objects returns on the same history (same bytes, error classes, LastChunks;
+same fault if a call does not return) -/
+theorem stats_recorder_same_behaviour {σ : Type} (o : CacheOps σ) (cfg : Cfg) (f : File)
+    (ops : List (Op (σ × Stats))) :
+    outputs cfg (recorderOps o) f ops = outputs cfg o f (unwrapOps ops) :=
+  hom_same_behaviour (recorderOps o) o Prod.fst (recorder_hom o) cfg f ops
+
+/-- … hence transparency of a cache kind (in the form of `cached_refines_uncached` / `fifo_repaired_transparent`, for
+whatever condition `ok` on histories it has been proved) carries over to its StatsRecorder -/
+theorem stats_recorder_preserves_transparency {σ : Type} (o : CacheOps σ) (cfg : Cfg) (f : File)
+    (ops : List (Op (σ × Stats)))
+    (inner : ∀ outs, outputs cfg o f (unwrapOps ops) = .ok outs →
+      outputs cfg o f ((unwrapOps ops).map Op.uncached) = .ok outs)
+    (outs : List Out) (hr : outputs cfg (recorderOps o) f ops = .ok outs) :
+    outputs cfg (recorderOps o) f (ops.map Op.uncached) = .ok outs := by
+  rw [stats_recorder_same_behaviour] at hr ⊢
+  unfold unwrapOps
+  rw [uncached_mapC]
+  exact inner outs hr
+
+theorem opOK_unwrap {σ : Type} (o : CacheOps σ) (wf : σ → Prop) (ops : List (Op (σ × Stats)))
+    (ok : ∀ op ∈ ops, OpOK (recorderOps o) (fun s => wf s.1) op) : ∀ op ∈ unwrapOps ops, OpOK o wf op := by
+  intro op hop
+  obtain ⟨op0, h1, h2⟩ := List.mem_map.1 hop
+  subst h2
+  have := ok op0 h1
+  cases op0 with
+  | setCache c h => cases c with
+    | none => trivial
+    | some c => exact this
+  | _ => trivial
+
+/-- **stats_fifo_repaired_transparent**: `StatsRecorder(FIFO)` caches of any capacity ≥ 1, attached, replaced, detached
+and re-attached at arbitrary points: every call returns what the uncached reader returns (code variants as in
+`fifo_repaired_transparent`) -/
+theorem stats_fifo_repaired_transparent (cfg : Cfg) (hcfg : cfg.noStale) (hlg : cfg.lentGuard = true) (f : File)
+    (hf : FileOK f) (ops : List (Op (LCache × Stats)))
+    (ok : ∀ op ∈ ops, OpOK (recorderOps fifoOps) (fun s => LCache.WF s.1) op) (outs : List Out)
+    (hr : outputs cfg (recorderOps fifoOps) f ops = .ok outs) :
+    outputs cfg (recorderOps fifoOps) f (ops.map Op.uncached) = .ok outs :=
+  stats_recorder_preserves_transparency fifoOps cfg f ops
+    (fun outs' h => fifo_repaired_transparent cfg hcfg hlg f hf _ (opOK_unwrap fifoOps LCache.WF ops ok) outs' h)
+    outs hr
+
+/-- … and a `StatsRecorder(FIFO)` run stops abnormally only when the uncached run stops in the same way -/
+theorem stats_fifo_repaired_faults_only_as_uncached (cfg : Cfg) (hcfg : cfg.noStale) (hlg : cfg.lentGuard = true)
+    (f : File) (hf : FileOK f) (ops : List (Op (LCache × Stats)))
+    (ok : ∀ op ∈ ops, OpOK (recorderOps fifoOps) (fun s => LCache.WF s.1) op) (e : Fault)
+    (hr : outputs cfg (recorderOps fifoOps) f ops = .error e) :
+    outputs cfg (recorderOps fifoOps) f (ops.map Op.uncached) = .error e := by
+  rw [stats_recorder_same_behaviour] at hr ⊢
+  unfold unwrapOps
+  rw [uncached_mapC]
+  exact fifo_repaired_faults_only_as_uncached cfg hcfg hlg f hf _ (opOK_unwrap fifoOps LCache.WF ops ok) e hr
+
+theorem stats_fifo_setCache_ok (n : Int) (hn : 1 ≤ n) (hints : List Int) :
+    OpOK (recorderOps fifoOps) (fun s => LCache.WF s.1) (.setCache (some (LCache.new n, {})) hints) :=
+  ⟨LCache.wf_new hn, rfl⟩
+
+/-- `recorder_transparent` (StatsRecorder over a contract cache, by the contract) is also an instance of the general
+lemma: here it is re-derived for LRU without `recorder_contract` -/
+theorem stats_lru_transparent (cfg : Cfg) (hcfg : cfg.noStale) (f : File) (hf : FileOK f)
+    (ops : List (Op (LCache × Stats))) (ok : ∀ op ∈ ops, OpOK (recorderOps lruOps) (fun s => LCache.WF s.1) op)
+    (outs : List Out) (hr : outputs cfg (recorderOps lruOps) f ops = .ok outs) :
+    outputs cfg (recorderOps lruOps) f (ops.map Op.uncached) = .ok outs :=
+  stats_recorder_preserves_transparency lruOps cfg f ops
+    (fun outs' h => lru_transparent cfg hcfg f hf _ (opOK_unwrap lruOps LCache.WF ops ok) outs' h) outs hr
+
+theorem stats_random_transparent (cfg : Cfg) (hcfg : cfg.noStale) (f : File) (hf : FileOK f)
+    (ops : List (Op (RCache × Stats))) (ok : ∀ op ∈ ops, OpOK (recorderOps randomOps) (fun s => RCache.WF s.1) op)
+    (outs : List Out) (hr : outputs cfg (recorderOps randomOps) f ops = .ok outs) :
+    outputs cfg (recorderOps randomOps) f (ops.map Op.uncached) = .ok outs :=
+  stats_recorder_preserves_transparency randomOps cfg f ops
+    (fun outs' h => random_transparent cfg hcfg f hf _ (opOK_unwrap randomOps RCache.WF ops ok) outs' h) outs hr
+
+/-- the re-attachment history of `fifo_reattach_witness` with a StatsRecorder around the FIFO -/
+def statsReattachHist : List (Op (LCache × Stats)) :=
+  [.setCache (some (LCache.new 4, {})) [], .read 8, .seek 0 0, .setCache none [], .seek 70 0, .reattach 0 [],
+    .seek 0 0, .read 2]
+
+/-- non-vacuity: the hypotheses of `stats_fifo_repaired_transparent` hold for it, forgetting the counters gives
+`reattachHist`, the run is `ok` with 8 answers equal to the uncached ones, and the counters really moved (the detached
+recorder saw 2 Gets, 1 miss, 2 Puts, both retained, before it was parked) -/
+example : (∀ op ∈ statsReattachHist, OpOK (recorderOps fifoOps) (fun s => LCache.WF s.1) op) ∧
+    unwrapOps statsReattachHist = reattachHist ∧
+    (bytesOf (outputs Cfg.repaired (recorderOps fifoOps) file3 statsReattachHist)).length = 8 ∧
+    bytesOf (outputs Cfg.repaired (recorderOps fifoOps) file3 statsReattachHist) =
+      bytesOf (outputs Cfg.repaired (recorderOps fifoOps) file3 (statsReattachHist.map Op.uncached)) := by
+  refine ⟨?_, rfl, by decide, by decide⟩
+  intro op hop
+  simp only [statsReattachHist, List.mem_cons, List.mem_nil_iff, or_false] at hop
+  rcases hop with h1 | h1 | h1 | h1 | h1 | h1 | h1 | h1 <;> subst h1 <;>
+    first | exact stats_fifo_setCache_ok 4 (by decide) [] | trivial
+
+example : (match newReader (recorderOps fifoOps) Cfg.repaired file3 with
+    | .ok (r, _) => (match run Cfg.repaired (recorderOps fifoOps) file3 r (statsReattachHist.take 4) with
+        | .ok (r', _) => r'.parked.map (fun s => (s.2.gets, s.2.misses, s.2.puts, s.2.retains))
+        | .error _ => [])
+    | .error _ => []) = [(2, 1, 2, 2)] := by decide
+
+end Stats
+
+/-! ### histories that mix kinds of cache objects, FIFO included (extension round 5)
+
+`AllCache` = a cache object of any provided kind: FIFO | StatsRecorder(FIFO) | LRU | Random | StatsRecorder(LRU) |
+StatsRecorder(Random).  The full statement (`all_kinds_transparent_full`: any sequence of SetCache of new objects of any
+of these kinds, nil, or objects used earlier) is FALSE on the repaired tree — `all_kinds_transparent_full_false`, history
+`crossDefectHist`, reproduced on the Go code (finding C03 round 5): `bg.lent` remembers only the LAST block on loan; a block
+that a detached FIFO still indexes can be `Put` into an LRU, come back from the LRU's `Get` as the reader's own while
+`bg.lent` points elsewhere, and be recycled.  What is proved: (1) histories that mix bare FIFOs and StatsRecorder(FIFO)s freely (`fifo_family_transparent`); (2) histories
+over `AllCache` whose objects all come from the FIFO family or all from the contract family
+(`all_kinds_transparent_partial`). -/
+
+section AllKinds
+
+abbrev FifoFamily := LCache ⊕ (LCache × Stats)
+def fifoFamilyOps : CacheOps FifoFamily := sumOps fifoOps (recorderOps fifoOps)
+def fifoFamilyWF : FifoFamily → Prop := sumWF LCache.WF (fun s => LCache.WF s.1)
+
+theorem fifoFamily_hom : Hom fifoFamilyOps fifoOps (Sum.elim id Prod.fst) :=
+  sum_hom (id_hom fifoOps) (recorder_hom fifoOps)
+
+/-- histories that attach, replace, detach and re-attach bare FIFOs and StatsRecorder(FIFO)s in any order -/
+theorem fifo_family_transparent (cfg : Cfg) (hcfg : cfg.noStale) (hlg : cfg.lentGuard = true) (f : File)
+    (hf : FileOK f) (ops : List (Op FifoFamily)) (ok : ∀ op ∈ ops, OpOK fifoFamilyOps fifoFamilyWF op)
+    (outs : List Out) (hr : outputs cfg fifoFamilyOps f ops = .ok outs) :
+    outputs cfg fifoFamilyOps f (ops.map Op.uncached) = .ok outs := by
+  rw [hom_same_behaviour _ _ _ fifoFamily_hom] at hr ⊢
+  rw [uncached_mapC]
+  refine fifo_repaired_transparent cfg hcfg hlg f hf _ ?_ outs hr
+  intro op hop
+  obtain ⟨op0, h1, h2⟩ := List.mem_map.1 hop
+  subst h2
+  refine opOK_hom fifoFamily_hom ?_ op0 (ok op0 h1)
+  intro s hs
+  cases s with
+  | inl a => exact hs
+  | inr b => exact hs
+
+abbrev AllCache := FifoFamily ⊕ AnyCache
+def allOps : CacheOps AllCache := sumOps fifoFamilyOps anyOps
+def allWF : AllCache → Prop := sumWF fifoFamilyWF anyWF
+
+def allFIFO (n : Int) : AllCache := .inl (.inl (LCache.new n))
+def allStatsFIFO (n : Int) : AllCache := .inl (.inr (LCache.new n, {}))
+def allOther (c : AnyCache) : AllCache := .inr c
+
+theorem all_setCache_ok (n : Int) (hn : 1 ≤ n) (hints : List Int) :
+    OpOK allOps allWF (.setCache (some (allFIFO n)) hints) ∧
+    OpOK allOps allWF (.setCache (some (allStatsFIFO n)) hints) ∧
+    OpOK allOps allWF (.setCache (some (allOther (anyLRU n))) hints) ∧
+    OpOK allOps allWF (.setCache (some (allOther (anyRandom n))) hints) ∧
+    OpOK allOps allWF (.setCache (some (allOther (anyStatsLRU n))) hints) ∧
+    OpOK allOps allWF (.setCache (some (allOther (anyStatsRandom n))) hints) :=
+  ⟨⟨LCache.wf_new hn, rfl⟩, ⟨LCache.wf_new hn, rfl⟩, ⟨LCache.wf_new hn, rfl⟩, ⟨RCache.wf_new hn, rfl⟩,
+    ⟨LCache.wf_new hn, rfl⟩, ⟨RCache.wf_new hn, rfl⟩⟩
+
+/-- THE FULL STATEMENT (FALSE, see `all_kinds_transparent_full_false`): SetCache may install a new object of any kind, nil, or any object used earlier -/
+def all_kinds_transparent_full : Prop :=
+  ∀ (f : File), FileOK f → ∀ (ops : List (Op AllCache)), (∀ op ∈ ops, OpOK allOps allWF op) →
+    ∀ outs, outputs Cfg.repaired allOps f ops = .ok outs →
+      outputs Cfg.repaired allOps f (ops.map Op.uncached) = .ok outs
+
+/-- all objects of the history are of the FIFO family, or all are of the contract family -/
+def OneFamily (ops : List (Op AllCache)) : Prop :=
+  (∀ c h, Op.setCache (some c) h ∈ ops → ∃ a, c = Sum.inl a) ∨
+  (∀ c h, Op.setCache (some c) h ∈ ops → ∃ b, c = Sum.inr b)
+
+/-- the part of the full statement that is proved: histories over `AllCache` that stay within one family (within the
+family every mixture, every re-attachment) -/
+theorem all_kinds_transparent_partial (cfg : Cfg) (hcfg : cfg.noStale) (hlg : cfg.lentGuard = true) (f : File)
+    (hf : FileOK f) (ops : List (Op AllCache)) (ok : ∀ op ∈ ops, OpOK allOps allWF op) (one : OneFamily ops)
+    (outs : List Out) (hr : outputs cfg allOps f ops = .ok outs) :
+    outputs cfg allOps f (ops.map Op.uncached) = .ok outs := by
+  rcases one with hl | hrr
+  · have e := left_inl ops hl
+    have ok1 : ∀ op ∈ ops.map Op.left, OpOK fifoFamilyOps fifoFamilyWF op := by
+      intro op hop
+      obtain ⟨op0, h1, h2⟩ := List.mem_map.1 hop
+      subst h2
+      have := ok op0 h1
+      cases op0 with
+      | setCache c h =>
+        cases c with
+        | none => trivial
+        | some c =>
+          obtain ⟨a, rfl⟩ := hl c h h1
+          exact this
+      | _ => trivial
+    rw [← e] at hr ⊢
+    have Hl : Hom fifoFamilyOps allOps Sum.inl := inl_hom fifoFamilyOps anyOps
+    rw [← hom_same_behaviour _ _ _ Hl] at hr
+    rw [← uncached_mapC, ← hom_same_behaviour _ _ _ Hl]
+    exact fifo_family_transparent cfg hcfg hlg f hf _ ok1 outs hr
+  · have e := right_inr ops hrr
+    have ok1 : ∀ op ∈ ops.map Op.right, OpOK anyOps anyWF op := by
+      intro op hop
+      obtain ⟨op0, h1, h2⟩ := List.mem_map.1 hop
+      subst h2
+      have := ok op0 h1
+      cases op0 with
+      | setCache c h =>
+        cases c with
+        | none => trivial
+        | some c =>
+          obtain ⟨a, rfl⟩ := hrr c h h1
+          exact this
+      | _ => trivial
+    rw [← e] at hr ⊢
+    have Hr : Hom anyOps allOps Sum.inr := inr_hom fifoFamilyOps anyOps
+    rw [← hom_same_behaviour _ _ _ Hr] at hr
+    rw [← uncached_mapC, ← hom_same_behaviour _ _ _ Hr]
+    exact mixed_kinds_transparent cfg hcfg f hf _ ok1 outs hr
+
+/-- FIFO(2) → StatsRecorder(FIFO(1)) → nil → the first FIFO again → the StatsRecorder again -/
+def familyHist : List (Op AllCache) :=
+  [.setCache (some (allFIFO 2)) [], .read 8, .seek 0 0, .setCache (some (allStatsFIFO 1)) [], .seek 70 0, .read 2,
+   .seek 35 1, .setCache none [], .seek 0 2, .reattach 0 [], .seek 70 0, .seek 0 0, .read 6, .reattach 0 [],
+   .seek 35 0, .read 3]
+
+/-- non-vacuity of `all_kinds_transparent_partial`: hypotheses hold, the run is `ok` (16 answers), cached = uncached -/
+example : (∀ op ∈ familyHist, OpOK allOps allWF op) ∧ OneFamily familyHist ∧
+    (bytesOf (outputs Cfg.repaired allOps file3 familyHist)).length = 16 ∧
+    bytesOf (outputs Cfg.repaired allOps file3 (familyHist.map Op.uncached)) =
+      bytesOf (outputs Cfg.repaired allOps file3 familyHist) := by
+  refine ⟨?_, Or.inl ?_, by decide, by decide⟩
+  · intro op hop
+    simp only [familyHist, List.mem_cons, List.mem_nil_iff, or_false] at hop
+    rcases hop with h1 | h1 | h1 | h1 | h1 | h1 | h1 | h1 | h1 | h1 | h1 | h1 | h1 | h1 | h1 | h1 <;> subst h1 <;>
+      first | exact (all_setCache_ok 2 (by decide) []).1 | exact (all_setCache_ok 1 (by decide) []).2.1 | trivial
+  · intro c h hop
+    simp only [familyHist, List.mem_cons, List.mem_nil_iff, or_false] at hop
+    rcases hop with h1 | h1 | h1 | h1 | h1 | h1 | h1 | h1 | h1 | h1 | h1 | h1 | h1 | h1 | h1 | h1 <;> cases h1 <;>
+      exact ⟨_, rfl⟩
+
+/-- a history OUTSIDE the proved part (FIFO, then LRU, then the FIFO again, with the loaned block in play): evaluated
+only — cached = uncached on the model, as the harness observes on the code -/
+def crossHist : List (Op AllCache) :=
+  [.setCache (some (allFIFO 4)) [], .read 8, .seek 0 0, .setCache (some (allOther (anyLRU 1))) [], .seek 70 0, .read 2,
+   .seek 35 0, .reattach 0 [], .seek 0 0, .read 2, .reattach 0 [], .seek 70 0, .read 4]
+
+example : (∀ op ∈ crossHist, OpOK allOps allWF op) ∧ ¬ OneFamily crossHist ∧
+    bytesOf (outputs Cfg.repaired allOps file3 (crossHist.map Op.uncached)) =
+      bytesOf (outputs Cfg.repaired allOps file3 crossHist) := by
+  refine ⟨?_, ?_, by decide⟩
+  · intro op hop
+    simp only [crossHist, List.mem_cons, List.mem_nil_iff, or_false] at hop
+    rcases hop with h1 | h1 | h1 | h1 | h1 | h1 | h1 | h1 | h1 | h1 | h1 | h1 | h1 <;> subst h1 <;>
+      first | exact (all_setCache_ok 4 (by decide) []).1 | exact (all_setCache_ok 1 (by decide) []).2.2.1 | trivial
+  · intro h
+    rcases h with h | h
+    · obtain ⟨a, ha⟩ := h (allOther (anyLRU 1)) [] (by simp [crossHist])
+      cases ha
+    · obtain ⟨a, ha⟩ := h (allFIFO 4) [] (by simp [crossHist])
+      cases ha
+
+/-- FIFO F(4); Read 8; Seek b0 (hit: block X of member 0 stays in F, `lent = X`); SetCache(LRU L(1)); Seek b2 (X is Put into
+L: now F and L index X); Read 1; SetCache(F); Seek b1 (hit, `lent` = the block of member 1); SetCache(L); Seek b0 (L's Get
+hands X over and forgets it, `lent` is not X, F — detached — still indexes X); SetCache(nil); Seek b2 (X is recycled for
+"CCCC"); SetCache(F); Seek b0 (F returns X); Read 2. -/
+def crossDefectHist : List (Op AllCache) :=
+  [.setCache (some (allFIFO 4)) [], .read 8, .seek 0 0, .setCache (some (allOther (anyLRU 1))) [], .seek 70 0, .read 1,
+   .reattach 0 [], .seek 35 0, .reattach 0 [], .seek 0 0, .setCache none [], .seek 70 0, .reattach 0 [], .seek 0 0,
+   .read 2]
+
+/-- **finding (round 5)**: on the repaired tree the last Read of `crossDefectHist` returns "CC"; uncached: "AA" -/
+theorem cross_kind_witness :
+    (bytesOf (outputs Cfg.repaired allOps file3 crossDefectHist)).getLast? = some ([67, 67], .ok) ∧
+    (bytesOf (outputs Cfg.repaired allOps file3 (crossDefectHist.map Op.uncached))).getLast? = some ([65, 65], .ok) := by
+  decide
+
+theorem crossDefectHist_ok : ∀ op ∈ crossDefectHist, OpOK allOps allWF op := by
+  intro op hop
+  simp only [crossDefectHist, List.mem_cons, List.mem_nil_iff, or_false] at hop
+  rcases hop with h1 | h1 | h1 | h1 | h1 | h1 | h1 | h1 | h1 | h1 | h1 | h1 | h1 | h1 | h1 <;> subst h1 <;>
+    first | exact (all_setCache_ok 4 (by decide) []).1 | exact (all_setCache_ok 1 (by decide) []).2.2.1 | trivial
+
+/-- the full statement over all kinds is false for the repaired tree: mixing FIFO and LRU objects is NOT transparent -/
+theorem all_kinds_transparent_full_false : ¬ all_kinds_transparent_full := by
+  intro h
+  cases hc : outputs Cfg.repaired allOps file3 crossDefectHist with
+  | error e =>
+    have := cross_kind_witness.1
+    rw [hc] at this
+    simp [bytesOf] at this
+  | ok outs =>
+    have h2 := h file3 file3_ok crossDefectHist crossDefectHist_ok outs hc
+    have h3 := cross_kind_witness
+    rw [h2] at h3
+    rw [hc] at h3
+    rw [h3.1] at h3
+    exact absurd h3.2 (by decide)
+
+end AllKinds
 
 /-! ### read-ahead with a cache (rd > 1): the recorded finding, pinned on an abstract transition system
 
